@@ -18,6 +18,7 @@ import OpyVerif.Generated.GuardsDefs
 import OpyVerif.Generated.FormulasDefs
 import OpyVerif.Generated.BudgetDefs
 import OpyVerif.Generated.WalksDefs
+import OpyVerif.Generated.FindDefs
 import OpyVerif.Generated.ClipLoopsDefs
 /-
 Line-protocol driver: runs the *executable model definitions* on inputs sent by the Python
@@ -235,6 +236,8 @@ def step (d : DState) (line : String) : DState × String :=
   | ["w.pre", t] => match parseTree t with
     | some t => (d, showNats ((runWalk Opy.Gen.preOrderInit Opy.Gen.preOrderLoop (t.size + 2) t).filterMap PNode.id?))
     | none => (d, "bad-op")
+  | ["w.find", t, p] => match parseTree t, p.toNat? with
+    | some t, some p => (d, foundStr (Opy.Gen.findProg.run t p none)) | _, _ => (d, "bad-op")
   | ["w.post", t] => match parseTree t with
     | some t => (d, showNats ((runPost Opy.Gen.postOrderLoop (t.cost + 3) t).filterMap PNode.id?))
     | none => (d, "bad-op")
